@@ -116,5 +116,86 @@ theorem conjBlock_R_out (A : Nat) (R : φ → Int → Cx α) (hR : StableR A R) 
     R (conjBlock A R sw e st) i = R st i := by
   unfold conjBlock
   rw [pairs_R A R hR sw _ _ _ _ (fun k hk => ⟨by omega, by omega⟩), hR _ _ _ _ (by omega)]
+
+/-! ### the same block shape with arbitrary pair functions: `_real_func`, `_imag_func`
+
+    Turn `m` writes `c[i_p] = P m s[i_p] s[i_n]` and then `c[i_n] = N m s[i_p] s[i_n]` (in the text `N` is a function of the value just
+    stored in `c[i_p]`, i.e. of `P m …`); the centre gets `Z s[i]`. -/
+
+def pairStepG (A : Nat) (R : φ → Int → Cx α) (P N : Int → Cx α → Cx α → Cx α) (c : Int) (k : Nat) (st : φ) : φ :=
+  fwrC (α := α) (fwrC (α := α) st A (c + ((1 : Int) + (k : Int))) (P ((1 : Int) + (k : Int)) (R st (c + ((1 : Int) + (k : Int)))) (R st (c + -((1 : Int) + (k : Int))))))
+    A (c + -((1 : Int) + (k : Int))) (N ((1 : Int) + (k : Int)) (R st (c + ((1 : Int) + (k : Int)))) (R st (c + -((1 : Int) + (k : Int)))))
+
+def blockG (A : Nat) (R : φ → Int → Cx α) (P N : Int → Cx α → Cx α → Cx α) (Z : Cx α → Cx α) (e : Int) (st : φ) : φ :=
+  loopN e.toNat (pairStepG A R P N (e * (e + 1))) (fwrC (α := α) st A (e * (e + 1)) (Z (R st (e * (e + 1)))))
+
+theorem pairsG_R (A : Nat) (R : φ → Int → Cx α) (hR : StableR A R) (P N : Int → Cx α → Cx α → Cx α) (c : Int) (cnt : Nat) (st : φ) (i : Int)
+    (h : ∀ k : Nat, k < cnt → i ≠ c + ((1 : Int) + (k : Int)) ∧ i ≠ c + -((1 : Int) + (k : Int))) :
+    R (loopN cnt (pairStepG A R P N c) st) i = R st i := by
+  induction cnt with
+  | zero => rfl
+  | succ n ih =>
+    simp only [loopN]
+    unfold pairStepG
+    rw [hR _ _ _ _ (h n (by omega)).2, hR _ _ _ _ (h n (by omega)).1]
+    exact ih (fun k hk => h k (by omega))
+
+theorem pairsG_untouched (A : Nat) (R : φ → Int → Cx α) (P N : Int → Cx α → Cx α → Cx α) (c : Int) (cnt : Nat) (st : φ) (i : Int)
+    (h : ∀ k : Nat, k < cnt → i ≠ c + ((1 : Int) + (k : Int)) ∧ i ≠ c + -((1 : Int) + (k : Int))) :
+    frdC (α := α) (loopN cnt (pairStepG A R P N c) st) A i = frdC (α := α) st A i :=
+  loop_untouched _ A i cnt st (fun k s hk => by
+    unfold pairStepG
+    rw [frdC_fwrC_other _ _ _ _ _ (h k hk).2, frdC_fwrC_other _ _ _ _ _ (h k hk).1])
+
+theorem pairsG_cells (A : Nat) (R : φ → Int → Cx α) (hR : StableR A R) (P N : Int → Cx α → Cx α → Cx α) (c : Int) (cnt k0 : Nat) (hk : k0 < cnt) (st : φ) :
+    frdC (α := α) (loopN cnt (pairStepG A R P N c) st) A (c + ((1 : Int) + (k0 : Int)))
+        = P ((1 : Int) + (k0 : Int)) (R st (c + ((1 : Int) + (k0 : Int)))) (R st (c + -((1 : Int) + (k0 : Int))))
+    ∧ frdC (α := α) (loopN cnt (pairStepG A R P N c) st) A (c + -((1 : Int) + (k0 : Int)))
+        = N ((1 : Int) + (k0 : Int)) (R st (c + ((1 : Int) + (k0 : Int)))) (R st (c + -((1 : Int) + (k0 : Int)))) := by
+  have r1 := pairsG_R A R hR P N c k0 st (c + -((1 : Int) + (k0 : Int))) (fun k hk' => ⟨by omega, by omega⟩)
+  have r2 := pairsG_R A R hR P N c k0 st (c + ((1 : Int) + (k0 : Int))) (fun k hk' => ⟨by omega, by omega⟩)
+  refine ⟨?_, ?_⟩
+  · rw [(loop_at (pairStepG A R P N c) A _ cnt k0 hk st (fun k s _ hne => by
+      unfold pairStepG
+      rw [frdC_fwrC_other _ _ _ _ _ (by omega), frdC_fwrC_other _ _ _ _ _ (by omega)])).1]
+    unfold pairStepG at r1 r2 ⊢
+    rw [frdC_fwrC_other _ _ _ _ _ (by omega), frdC_fwrC_same, r1, r2]
+  · rw [(loop_at (pairStepG A R P N c) A _ cnt k0 hk st (fun k s _ hne => by
+      unfold pairStepG
+      rw [frdC_fwrC_other _ _ _ _ _ (by omega), frdC_fwrC_other _ _ _ _ _ (by omega)])).1]
+    unfold pairStepG at r1 r2 ⊢
+    rw [frdC_fwrC_same, r1, r2]
+
+/-- every cell of block `e` -/
+theorem blockG_cell (A : Nat) (R : φ → Int → Cx α) (hR : StableR A R) (P N : Int → Cx α → Cx α → Cx α) (Z : Cx α → Cx α)
+    (e : Int) (he : 0 ≤ e) (st : φ) (m : Int) (hm1 : -e ≤ m) (hm2 : m ≤ e) :
+    frdC (α := α) (blockG A R P N Z e st) A (e * (e + 1) + m)
+      = if 0 < m then P m (R st (e * (e + 1) + m)) (R st (e * (e + 1) + -m))
+        else if m < 0 then N (-m) (R st (e * (e + 1) + -m)) (R st (e * (e + 1) + m))
+        else Z (R st (e * (e + 1))) := by
+  unfold blockG
+  rcases lt_trichotomy m 0 with h | h | h
+  · rw [if_neg (by omega), if_pos h]
+    have e1 : e * (e + 1) + m = e * (e + 1) + -((1 : Int) + (((-m - 1).toNat : Nat) : Int)) := by omega
+    have e2 : -m = (1 : Int) + (((-m - 1).toNat : Nat) : Int) := by omega
+    have e3 : e * (e + 1) + m = e * (e + 1) + - -m := by omega
+    rw [e1, (pairsG_cells A R hR P N (e * (e + 1)) e.toNat (-m - 1).toNat (by omega) _).2]
+    rw [hR _ _ _ _ (by omega), hR _ _ _ _ (by omega), ← e2, ← e3]
+  · subst h
+    rw [if_neg (by omega), if_neg (by omega)]
+    rw [pairsG_untouched A R P N _ _ _ _ (fun k hk => ⟨by omega, by omega⟩)]
+    simp only [Int.add_zero, frdC_fwrC_same]
+  · rw [if_pos h]
+    have e1 : e * (e + 1) + m = e * (e + 1) + ((1 : Int) + (((m - 1).toNat : Nat) : Int)) := by omega
+    have e2 : m = (1 : Int) + (((m - 1).toNat : Nat) : Int) := by omega
+    have e4 : e * (e + 1) + -m = e * (e + 1) + -((1 : Int) + (((m - 1).toNat : Nat) : Int)) := by omega
+    rw [e1, (pairsG_cells A R hR P N (e * (e + 1)) e.toNat (m - 1).toNat (by omega) _).1]
+    rw [hR _ _ _ _ (by omega), hR _ _ _ _ (by omega), ← e2]
+
+theorem blockG_out (A : Nat) (R : φ → Int → Cx α) (P N : Int → Cx α → Cx α → Cx α) (Z : Cx α → Cx α) (e : Int) (he : 0 ≤ e) (st : φ) (i : Int)
+    (hni : ¬ (e * (e + 1) - e ≤ i ∧ i ≤ e * (e + 1) + e)) :
+    frdC (α := α) (blockG A R P N Z e st) A i = frdC (α := α) st A i := by
+  unfold blockG
+  rw [pairsG_untouched A R P N _ _ _ _ (fun k hk => ⟨by omega, by omega⟩), frdC_fwrC_other _ _ _ _ _ (by omega)]
 end
 end GenAlg
